@@ -366,7 +366,7 @@ theorem owed_back (s s' : St) (e : Ev) (hi : Inv s) (hs : step s e = some s') (k
     Owed s k ∨ ∃ j v' er', e = .leave j k v' true er' := by
   obtain ⟨f1, _, _⟩ := calls_frame s s' e hs
   rcases f1 i c' hc' with ⟨c, hc, ⟨a1, a2, _⟩⟩ | ⟨_, _, h, _⟩
-  · rcases a2 with a2 | ⟨hrun, k0, v0, h0, e0, he, hk0, hres⟩
+  · rcases a2 with a2 | ⟨hrun, k0, v0, h0, e0, he, hk0, hres, _⟩
     · have hinv : c.inv = c'.inv := by
         rcases a1 with a1 | ⟨hw, _, _⟩
         · exact a1.symm
@@ -377,7 +377,7 @@ theorem owed_back (s s' : St) (e : Ev) (hi : Inv s) (hs : step s e = some s') (k
       have := step_acct s s' e i hi hs
       rw [h2] at this; omega
     · right
-      rw [hr] at hres; cases hres
+      rw [hr] at hres; simp at hres; obtain ⟨rfl, rfl, rfl⟩ := hres
       have hinv : c'.inv = c.inv := by
         rcases a1 with a1 | ⟨hw, _, _⟩
         · exact a1
